@@ -776,6 +776,11 @@ class ConfigInformation:
                     self.values[k] = argument.validate(v)
                 elif argument.required:
                     raise AttributeError("Cannot set required attribute to None")
+                elif not bypass and not argument.optional:
+                    # A default does not make None a value of the parameter
+                    raise AttributeError(
+                        "Cannot set attribute %s to None (it is not optional)" % k
+                    )
                 else:
                     self.values[k] = None
             else:
